@@ -21,7 +21,8 @@ pub fn set_node_env(dir: &str) {
     // RNVERIF_LEADER=1: a real single-member Raft group (this node elects itself and serves writes)
     let leader = std::env::var("RNVERIF_LEADER").map(|v| v == "1").unwrap_or(false);
     std::env::set_var("RNACOS_RAFT_AUTO_INIT", if leader { "true" } else { "false" });
-    std::env::set_var("RNACOS_RAFT_NODE_ID", if leader { "1" } else { "9" });
+    let node_id = std::env::var("RNVERIF_NODE_ID").unwrap_or(if leader { "1".into() } else { "9".into() });
+    std::env::set_var("RNACOS_RAFT_NODE_ID", &node_id);
     if leader {
         std::env::set_var("RNACOS_RAFT_NODE_ADDR", "127.0.0.1:1");
     }
@@ -255,6 +256,43 @@ pub async fn exec(app: &Arc<AppShareData>, op: &Value) -> Value {
                     tokio::time::sleep(std::time::Duration::from_millis(50)).await;
                 }
             }
+            "nodes_update" => {
+                use rnacos::naming::cluster::node_manage::NodeManageRequest;
+                let nodes: Vec<(u64, Arc<String>)> = op["ids"].as_array().unwrap().iter().map(|i| { let id = i.as_u64().unwrap(); (id, Arc::new(format!("127.0.0.1:{}", 9000 + id))) }).collect();
+                app.naming_inner_node_manage.send(NodeManageRequest::UpdateNodes(nodes)).await??;
+                Ok(json!({"res":"ok"}))
+            }
+            "nodes_view" => {
+                // everybody listed in `alive` has just been heard of; the others time out (genuine check)
+                use rnacos::naming::cluster::node_manage::NodeManageRequest;
+                for i in op["alive"].as_array().unwrap() {
+                    app.naming_inner_node_manage.send(NodeManageRequest::ActiveNode(i.as_u64().unwrap())).await??;
+                }
+                let dead: Vec<u64> = op["dead"].as_array().unwrap().iter().map(|i| i.as_u64().unwrap()).collect();
+                app.naming_inner_node_manage.send(rnacos::verif_hooks::ExpireNodes(dead)).await?;
+                Ok(json!({"res":"ok"}))
+            }
+            "owner_query" => {
+                use rnacos::naming::cluster::model::{NamingRouteAddr, ProcessRange};
+                use rnacos::naming::cluster::node_manage::{NodeManageRequest, NodeManageResponse};
+                use rnacos::naming::model::ServiceKey;
+                let range = match app.naming_inner_node_manage.send(NodeManageRequest::QueryOwnerRange(ProcessRange::new(0, 0))).await?? {
+                    NodeManageResponse::OwnerRange(v) => v.first().map(|r| json!({"index": r.index, "len": r.len})).unwrap_or(Value::Null),
+                    _ => Value::Null,
+                };
+                let d: Value = serde_json::from_str(&app.naming_addr.send(rnacos::verif_hooks::DumpNaming).await?)?;
+                let mut routes = vec![];
+                for k in op["keys"].as_array().unwrap() {
+                    let key = ServiceKey::new("public", "DEFAULT_GROUP", k.as_str().unwrap());
+                    let h = rnacos::common::hash_utils::get_hash_value(&key);
+                    let r = match app.naming_node_manage.route_addr(&key).await {
+                        NamingRouteAddr::Local(_) => json!("local"),
+                        NamingRouteAddr::Remote(_, addr) => json!(addr.as_str()),
+                    };
+                    routes.push(json!({"key": k, "hash": h.to_string(), "route": r}));
+                }
+                Ok(json!({"res":"ok","range":range,"actor_range":d["current_range"],"routes":routes}))
+            }
             "sleep" => {
                 tokio::time::sleep(std::time::Duration::from_millis(op["ms"].as_u64().unwrap_or(100))).await;
                 Ok(json!({"res":"ok"}))
@@ -328,8 +366,16 @@ pub struct NodeProc {
 
 impl NodeProc {
     pub fn start(dir: &str, settle_ms: u64) -> anyhow::Result<Self> {
+        Self::start_env(dir, settle_ms, &[])
+    }
+
+    pub fn start_env(dir: &str, settle_ms: u64, envs: &[(&str, String)]) -> anyhow::Result<Self> {
         let exe = std::env::current_exe()?;
-        let mut child = std::process::Command::new(exe)
+        let mut cmd = std::process::Command::new(exe);
+        for (k, v) in envs {
+            cmd.env(k, v);
+        }
+        let mut child = cmd
             .args(["node", "run", dir, "--settle", &settle_ms.to_string()])
             .env("RUST_LOG", std::env::var("RNVERIF_NODE_LOG").unwrap_or("off".into()))
             .stdin(std::process::Stdio::piped())
